@@ -229,7 +229,8 @@ struct ctx_t
     void begin_sim(int max_cores = 16)
     {
         rng_t r(mix(seed, 0x51317));
-        simrt_default_config(&cfg, seed);
+        // the schedule / fault streams may be re-seeded independently of the workload (used while shrinking a workload)
+        simrt_default_config(&cfg, static_cast<uint64_t>(knob("sched_seed", static_cast<int64_t>(seed & 0x7fffffffffffffffULL))));
         // cores: small values favoured, 16 regularly
         static const int core_choices[] = {1, 2, 2, 3, 3, 4, 4, 5, 6, 8, 12, 16, 16};
         int              cores          = core_choices[r.next() % (sizeof(core_choices) / sizeof(int))];
